@@ -29,7 +29,7 @@ func VerifH03aMatcherCoversResolver() {
 	pn := verifrt.IntRange("plen", 0, pmax)
 	p := "/" + verifrt.String("p", pn) // origin-form request targets start with '/'
 	for i := 1; i < len(p); i++ {
-		verifrt.Assume(zzIn(p[i], "/.aA\\%"))
+		verifrt.Assume(zzIn(p[i], "/.aA\\%:"))
 	}
 	bn := verifrt.IntRange("blen", 0, bmax)
 	b := "/" + verifrt.String("b", bn) // rule paths start with '/'
